@@ -2,7 +2,7 @@
   GIV.Lemmas.CachePutStep — the local invariant of a running `Put` and its preservation by every
   program step under every single fault placement (C12).
 -/
-import GIV.Lemmas.CachePutFS
+import GIV.Lemmas.CachePutExec
 
 set_option linter.unusedSimpArgs false
 set_option linter.unusedSectionVars false
@@ -100,9 +100,6 @@ theorem fileOK_data_le (hoff : offered s.data1) {d : Bytes} (h : FileOK P offere
   · exact Nat.le_of_lt h
   · rw [h]; exact Nat.le_refl _
 
-theorem first_lt (h : s.size ≠ 0) : s.first < s.size := by
-  simp [Src.first, Gen.CachePut.firstLen]; omega
-
 theorem WriteSt.toTrunc (hy : Hyps P offered) (hoff : offered s.data1) (hsz : s.size ≠ 0) {fd : Nat} {rest : Bytes}
     (h : WriteSt P offered s used fs fd rest) : TruncSt P offered s used fs fd := by
   obtain ⟨o, nd, h1, h2, h3, h4, _, _, _, h8⟩ := h
@@ -197,14 +194,6 @@ theorem step_pCkOpen {L : Nat} (hL : LocalPut P offered now id s used fs (.pCkOp
     obtain ⟨rfl, rfl, rfl⟩ := hs
     simp [next, PutPost, LocalPut, hL]
   | short k => simp [tstep, sysOf, exec] at hs
-
-theorem take_take_length {α : Type} (l : List α) (k : Nat) : l.take (l.take k).length = l.take k := by
-  rw [List.length_take]
-  rcases Nat.le_total k l.length with h | h
-  · rw [Nat.min_eq_left h]
-  · rw [Nat.min_eq_right h, List.take_of_length_le h, List.take_of_length_le (Nat.le_refl _)]
-
-theorem chunk_pos (n : Nat) : 0 < chunk n := by unfold chunk; split <;> omega
 
 theorem step_pCkRead {fd L : Nat} {acc : Bytes} (hL : LocalPut P offered now id s used fs (.pCkRead fd acc L))
     (hs : tstep P now fs proc (.put id s) (.pCkRead fd acc L) fault n = some (fs', r, nx))
@@ -309,41 +298,6 @@ theorem post_of_sameFiles {pcs : Next Hsh} (hinv : FSInv P offered fs) (hsame : 
   cases pcs with
   | goto pc' => exact hpost pc' rfl (hsame.inv hinv)
   | done _ => exact hsame.inv hinv
-
-theorem exec_stat_same {p : Name Id Hsh} (hs : exec fs proc (.stat p) fault = some (fs', r)) : SameFiles fs fs' := by
-  cases fault <;> simp only [exec, execOk] at hs
-  all_goals first
-    | (simp at hs; done)
-    | (simp at hs; obtain ⟨rfl, _⟩ := hs; exact SameFiles.refl _)
-    | (split at hs
-       · simp at hs; obtain ⟨rfl, _⟩ := hs; exact SameFiles.refl _
-       · split at hs
-         · simp at hs
-         · simp at hs; obtain ⟨rfl, _⟩ := hs; exact SameFiles.refl _)
-
-theorem exec_chtimes_same {p : Name Id Hsh} (hs : exec fs proc (.chtimes p) fault = some (fs', r)) : SameFiles fs fs' := by
-  cases fault <;> simp only [exec, execOk] at hs
-  all_goals first
-    | (simp at hs; done)
-    | (simp at hs; obtain ⟨rfl, _⟩ := hs; exact SameFiles.refl _)
-    | (split at hs <;> (simp at hs; obtain ⟨rfl, _⟩ := hs; exact SameFiles.refl _))
-
-theorem exec_close_same {fd : Nat} (hs : exec fs proc (.close fd) fault = some (fs', r)) : SameFiles fs fs' := by
-  cases fault <;> simp only [exec, execOk] at hs
-  all_goals first
-    | (simp at hs; done)
-    | (simp at hs; obtain ⟨rfl, _⟩ := hs; exact SameFiles.refl _)
-    | (split at hs <;> (simp at hs; obtain ⟨rfl, _⟩ := hs; exact ⟨rfl, rfl, rfl⟩))
-
-theorem tstep_eq {op : Op Id} {pc : PC Hsh} (hs : tstep P now fs proc op pc fault n = some (fs', r, nx)) :
-    exec fs proc (sysOf P now n op pc) fault = some (fs', r) ∧ nx = next P fs'.content n op pc r := by
-  simp only [tstep] at hs
-  split at hs
-  · simp at hs
-  · next fs1 r1 he =>
-    simp at hs
-    obtain ⟨rfl, rfl, rfl⟩ := hs
-    exact ⟨he, rfl⟩
 
 theorem step_pReuseStat (hL : LocalPut P offered now id s used fs .pReuseStat)
     (hs : tstep P now fs proc (.put id s) .pReuseStat fault n = some (fs', r, nx)) :
@@ -497,35 +451,6 @@ theorem step_pOpen (hy : Hyps P offered) (hoff : offered s.data1) {trunc : Bool}
     obtain ⟨rfl, rfl⟩ := he
     simp [next, copyErr, Gen.CachePut.copyErrSkipsIndex, PutPost, hinv]
   | short k => simp [exec] at he
-
-theorem write_spec {fd : Nat} {bs : Bytes} (hs : execOk fs proc (.write fd bs) = some (fs', r)) :
-    ∃ o nd, fs.fds fd = some o ∧ fs.inodes o.ino = some nd ∧
-      fs' = (fs.setInode o.ino { nd with data := writeAt nd.data o.off bs }).setFd fd (some { o with off := o.off + bs.length }) ∧
-      r = .okN bs.length := by
-  simp only [execOk] at hs
-  cases hfd : fs.fds fd with
-  | none => simp [hfd] at hs
-  | some o =>
-    cases hino : fs.inodes o.ino with
-    | none => simp [hfd, hino] at hs
-    | some nd =>
-      simp [hfd, hino] at hs
-      obtain ⟨rfl, rfl⟩ := hs
-      exact ⟨o, nd, rfl, hino, rfl, rfl⟩
-
-theorem ftruncate_spec {fd k : Nat} (hs : execOk fs proc (.ftruncate fd k) = some (fs', r)) :
-    ∃ o nd, fs.fds fd = some o ∧ fs.inodes o.ino = some nd ∧
-      fs' = fs.setInode o.ino { nd with data := truncTo nd.data k } ∧ r = .ok := by
-  simp only [execOk] at hs
-  cases hfd : fs.fds fd with
-  | none => simp [hfd] at hs
-  | some o =>
-    cases hino : fs.inodes o.ino with
-    | none => simp [hfd, hino] at hs
-    | some nd =>
-      simp [hfd, hino] at hs
-      obtain ⟨rfl, rfl⟩ := hs
-      exact ⟨o, nd, rfl, hino, rfl, rfl⟩
 
 /-- after any write through `fd` the error path is in order (the data file is exempted). -/
 theorem truncSt_after_write {fd : Nat} {rest bs : Bytes} (h : WriteSt P offered s used fs fd rest)
